@@ -57,7 +57,16 @@ fn limit_tok(l: Option<usize>) -> String {
 }
 
 fn parse<'s>(s: &'s Scheme, strict: bool, limit: Option<usize>, lit: &str, via_setter: bool) -> Result<FilterAst, String> {
+    // the limit applies at every nesting depth: the comparison is written plain, in parentheses
+    // and in double parentheses in turn (same meaning, nested parsers)
+    use std::sync::atomic::{AtomicUsize, Ordering};
+    static WRAP: AtomicUsize = AtomicUsize::new(0);
     let text = format!("b {} {}", if strict { "strict wildcard" } else { "wildcard" }, lit);
+    let text = match WRAP.fetch_add(1, Ordering::Relaxed) % 3 {
+        0 => text,
+        1 => format!("({text})"),
+        _ => format!("(({text}))"),
+    };
     let r = catch_unwind(AssertUnwindSafe(|| {
         // two ways of configuring the limit; both must behave the same
         let parser = if via_setter {
